@@ -144,7 +144,7 @@ func New(config ...Config) fiber.Handler {
 			if e.exp != 0 && ts >= e.exp {
 				deleteKey(key)
 				if cfg.MaxBytes > 0 {
-					if size, ok := heap.remove(e.heapidx, key); ok {
+					if size, ok := heap.removeKey(key); ok {
 						storedBytes -= size
 					}
 				}
@@ -212,6 +212,12 @@ func New(config ...Config) fiber.Handler {
 
 		// Remove oldest to make room for new
 		if cfg.MaxBytes > 0 {
+			// The response replaces whatever is tracked for the key (a refreshed entry, the
+			// response of a concurrent request, an entry the storage expired by itself):
+			// its bytes are not held twice
+			if size, ok := heap.removeKey(key); ok {
+				storedBytes -= size
+			}
 			for storedBytes+bodySize > cfg.MaxBytes {
 				key, size := heap.removeFirst()
 				deleteKey(key)
